@@ -8,6 +8,7 @@ import (
 	"fmt"
 	"math/rand"
 	"reflect"
+	"strings"
 	"time"
 	"unsafe"
 
@@ -56,6 +57,9 @@ func innerProtModel(m *pdist.ProtDistModel) *mprot.ProtModel {
 	return (*mprot.ProtModel)(unsafe.Pointer(f.Pointer()))
 }
 
+// rows of an alignment the model object is used on before the one of the call (nil: a fresh object)
+var protWarmUp [][]int
+
 func protCall(rows [][]int, o protOpts) (ev protEvent) {
 	ev = protEvent{T: "protdist", Rows: rows, protOpts: o, D: [][]string{}, Pi: []string{}, Eval: []string{}, U: [][]string{}, V: [][]string{}}
 	done := make(chan struct{})
@@ -88,6 +92,15 @@ func protCall(rows [][]int, o protOpts) (ev protEvent) {
 		if err = m.InitModel(al, w); err != nil {
 			ev.Kind, ev.Msg = "err", err.Error()
 			return
+		}
+		if protWarmUp != nil && o.ModelFreqs {
+			// the model object first serves another alignment of the same size (as the command does for the alignments of
+			// one file and for bootstrap replicates): nothing of it may be left in the matrix of this one
+			wal := align.NewAlign(align.AMINOACIDS)
+			for i, r := range protWarmUp {
+				wal.AddSequenceChar(fmt.Sprintf("s%d", i), i2b(r), "")
+			}
+			m.MLDist(wal, w)
 		}
 		_, _, d, err := m.MLDist(al, w)
 		if err != nil {
@@ -168,6 +181,17 @@ func protdistFamily(env *Env) error {
 			}
 		}
 		id := fmt.Sprintf("p%d_%d", env.Seed, i)
+		protWarmUp = nil
+		if i%2 == 1 {
+			// every other case: the same rows with their columns in reverse order first (gaps in other columns)
+			protWarmUp = make([][]int, n)
+			for k := range rows {
+				protWarmUp[k] = make([]int, L)
+				for c := range rows[k] {
+					protWarmUp[k][L-1-c] = rows[k][c]
+				}
+			}
+		}
 		ev := protCall(rows, o)
 		ev.ID = id
 		env.Emit(ev)
@@ -188,7 +212,19 @@ func protdistFamily(env *Env) error {
 			if o.Gamma {
 				argv = append(argv, "--alpha", o.Alpha)
 			}
-			out, errs, code := runGoalign(fastaRows(rows), argv...)
+			in := fastaRows(rows)
+			twoAl := protWarmUp != nil
+			if twoAl { // the warm-up alignment first, in one Phylip file
+				argv = append(argv, "-p")
+				in = append(phylipRows(protWarmUp), phylipRows(rows)...)
+			}
+			out, errs, code := runGoalign(in, argv...)
+			if twoAl && code == 0 {
+				lines := strings.SplitAfter(out, "\n")
+				if len(lines) > n+1 {
+					out = strings.Join(lines[n+1:], "")
+				}
+			}
 			ce := ev
 			ce.ID = id + ":cli"
 			if code != 0 {
